@@ -1094,28 +1094,33 @@ def trlog(T, check=True, twist=False):
                 return np.zeros((3,))
             else:
                 return np.zeros((3, 3))
-        elif abs(np.trace(R) + 1) < 100 * _eps:
-            # check for trace = -1
-            #   rotation by +/- pi, +/- 3pi etc.
-            diagonal = R.diagonal()
-            k = diagonal.argmax()
-            mx = diagonal[k]
-            I = np.eye(3)
-            col = R[:, k] + I[:, k]
-            w = col / np.sqrt(2 * (1 + mx))
-            theta = math.pi
-            if twist:
-                return w * theta
-            else:
-                return base.skew(w * theta)
         else:
             # general case
-            theta = math.acos((np.trace(R) - 1) / 2)
-            skw = (R - R.T) / 2 / math.sin(theta)
-            if twist:
-                return base.vex(skw * theta)
+            #  vex(R) is sin(theta) times the rotation axis, so atan2 of its
+            #  norm and (trace(R) - 1) / 2 = cos(theta) gives theta accurately
+            #  over the whole range [0, pi], in particular for rotations
+            #  close to the identity and close to a half turn
+            sw = base.vex(R)
+            s = base.norm(sw)
+            c = (np.trace(R) - 1) / 2
+            theta = math.atan2(s, c)
+            if c > -0.5:
+                # axis from the skew-symmetric part
+                w = sw * (theta / s)
             else:
-                return skw * theta
+                # near a half turn the skew-symmetric part vanishes, take the
+                # axis from the symmetric part cos(theta) I + (1 - cos(theta)) a a'
+                # and its sign from the skew-symmetric part
+                Rs = (R + R.T) / 2 - math.cos(theta) * np.eye(3)
+                k = Rs.diagonal().argmax()
+                a = base.unitvec(Rs[:, k])
+                if np.dot(a, sw) < 0:
+                    a = -a
+                w = a * theta
+            if twist:
+                return w
+            else:
+                return base.skew(w)
     else:
         raise ValueError("Expect SO(3) or SE(3) matrix")
 
